@@ -1,4 +1,3 @@
 package main
 
-func genTLS(repo string, write writer)    {}
 func genShared(repo string, write writer) {}
